@@ -91,6 +91,9 @@ for _n in ('exp', 'log', 'sin', 'cos', 'tan', 'exp2', 'log2', 'log10', 'asin', '
            'asinh', 'acosh', 'atanh', 'log1p', 'expm1', 'tgamma', 'lgamma', 'cbrt'):
     getattr(libm, _n).restype = ctypes.c_double; getattr(libm, _n).argtypes = [ctypes.c_double]
 
+# z3 timeouts start a timer thread per check (futex / sched_yield storms with many forked processes); the
+# deterministic resource limit needs no thread. Calibrated on this machine: about 5 000 rlimit units per millisecond.
+RL_PER_MS = 5000
 SLOWLOG = float(os.environ.get('LLSE_SLOWLOG', '0') or 0)
 
 class Violation(Exception):
@@ -117,6 +120,7 @@ class Opts:
         s.trace = kw.get('trace', False)
         s.workers = kw.get('workers', 16)
         s.abstraction = kw.get('abstraction', True)
+        s.mode = kw.get('mode', 'fork')                # 'fork': copy-on-write process per alternative; 'replay': re-execution
 
 class ConcreteModel:
     """an assignment of the symbolic inputs; evaluates terms by substitution + simplification"""
@@ -247,9 +251,15 @@ class Frame:
     __slots__ = ('fn', 'regs', 'allocas')
 
 class Exec:
-    def __init__(s, mod, opts=None):
-        s.mod = mod; s.tc = mod.tc; s.mem = Memory(); s.opts = opts or Opts()
-        s.gaddr = {}; s.faddr = {}; s.addr2fn = {}; s.gconst = set()
+    def __init__(s, mod, opts=None, base=None):
+        s.mod = mod; s.tc = mod.tc; s.opts = opts or Opts()
+        if base is None:
+            s.mem = Memory()
+            s.gaddr = {}; s.faddr = {}; s.addr2fn = {}; s.gconst = set()
+        else:
+            # a fresh machine sharing the immutable parts (address maps, parsed code) with `base`
+            s.mem = base.mem.clone()
+            s.gaddr = base.gaddr; s.faddr = base.faddr; s.addr2fn = base.addr2fn; s.gconst = base.gconst
         s.ninstr = 0
         s.path = []                 # path condition (z3 Bools)
         s.known = {}                # ast id -> truth value already implied by the path
@@ -270,8 +280,10 @@ class Exec:
         s.arrcache = {}
         s.callees = {}
         s.path_model = None
+        s.replay = None; s.dpos = 0; s.trail = []; s.pending = None; s.nhook = 0; s.hookcache = None
         s.abstractor = Abstractor(); s.abs_queries = 0; s.abs_unsat = 0; s.abs_sat = 0
-        s.layout_globals()
+        if base is None: s.layout_globals()
+        else: s.callees = base.callees
 
     # ------------------------------------------------------------------ globals
     def layout_globals(s):
@@ -437,9 +449,8 @@ class Exec:
 
     def store(s, addr, t, v):
         if is_sym(addr):
-            vals = s.enum_values(to_bv(addr, 64), 64, s.opts.max_enum)
-            if vals is None: raise Unsupported('store to symbolic address with many targets')
-            addr = s.fork_on_values(to_bv(addr, 64), 64, vals)
+            addr = s.choose_value(to_bv(addr, 64), 64, s.opts.max_enum)
+            if addr is None: raise Unsupported('store to symbolic address with many targets')
         rt = s.tc.resolve(t); k = rt.k
         if k == 'int':
             sz = s.tc.size(rt)
@@ -472,11 +483,11 @@ class Exec:
 
     def memcpy(s, dst, src, n):
         if is_sym(n):
-            vals = s.enum_values(to_bv(n, 64), 64, 64)
-            if vals is None: raise Unsupported('memcpy with unbounded symbolic length')
-            n = s.fork_on_values(to_bv(n, 64), 64, vals)
+            n = s.choose_value(to_bv(n, 64), 64, 64)
+            if n is None: raise Unsupported('memcpy with unbounded symbolic length')
         if n == 0: return
-        if is_sym(dst) or is_sym(src): raise Unsupported('memcpy with symbolic pointer')
+        if is_sym(dst): dst = s.concretize(dst, 64, what='memcpy destination')
+        if is_sym(src): src = s.concretize(src, 64, what='memcpy source')
         so = s.mem.find(src); do = s.mem.find(dst)
         a = src - so.base; b = dst - do.base
         if a + n > so.size or b + n > do.size: raise MemError('memcpy oob')
@@ -508,9 +519,8 @@ class Exec:
         """load through a symbolic address: few targets -> fork; otherwise (read of a region inside one
         object) an array read"""
         addr = to_bv(addr, 64)
-        vals = s.enum_values(addr, 64, s.opts.max_enum)
-        if vals is not None:
-            a = s.fork_on_values(addr, 64, vals)
+        a = s.choose_value(addr, 64, s.opts.max_enum)
+        if a is not None:
             return s.load(a, t)
         rt = s.tc.resolve(t)
         if rt.k not in ('int', 'ptr', 'double'): raise Unsupported('aggregate load through symbolic address')
@@ -816,7 +826,7 @@ class Exec:
         over-approximates, so `unsat` there is `unsat` here; anything else is decided on the exact formula."""
         if s.opts.abstraction and s.path_has_fp_arith(extra):
             t0 = time.time()
-            sol = z3.Solver(); sol.set('timeout', min(5000, s.opts.query_timeout_ms))
+            sol = z3.Solver(); sol.set('rlimit', min(5000, s.opts.query_timeout_ms) * RL_PER_MS)
             ab = s.abstractor
             cons = [ab.abstract(c) for c in s.path]
             if extra is not None: cons.append(ab.abstract(extra))
@@ -854,7 +864,7 @@ class Exec:
                 s.solver_time += time.time() - t1
         t0 = time.time()
         sol = z3.Solver()
-        sol.set('timeout', s.opts.query_timeout_ms)
+        sol.set('rlimit', s.opts.query_timeout_ms * RL_PER_MS)
         if s.path: sol.add(*s.path)
         if extra is not None: sol.add(extra)
         r = sol.check()
@@ -895,22 +905,45 @@ class Exec:
         if s.check() != 'sat': raise Unsupported('path infeasible or unknown when asking for a model')
         return s.last_model.eval(bv, model_completion=True).as_long()
 
+    def choice(s, compute):
+        """One non-deterministic choice point. `compute()` returns the list of feasible alternatives (payloads);
+        it is only called when this point is reached for the first time (not while replaying a recorded prefix)."""
+        rp = s.replay
+        if rp is not None and s.dpos < len(rp):
+            p = rp[s.dpos]; s.dpos += 1
+            s.trail.append(p)
+            return p
+        alts = compute()
+        if len(alts) == 1:
+            p = alts[0]
+        elif rp is not None:
+            # replay mode: the other alternatives are explored later by re-execution from the case start
+            for a in alts[1:]:
+                s.pending.append(s.trail + [a])
+            p = alts[0]
+        else:
+            p = alts[s.fork(len(alts))]
+        s.trail.append(p)
+        if rp is not None: s.dpos = len(rp) + 1000000
+        return p
+
     def branch(s, cond_i1):
-        """cond is a symbolic i1; returns the concrete 0/1 this process continues with (forking if both feasible)"""
+        """cond is a symbolic i1; returns the concrete 0/1 this path continues with"""
         c = bool_of_i1(cond_i1)
         k = s.known.get(c.get_id())
         if k is not None: return 1 if k else 0
         nc = z3.Not(c)
-        rt = s.check(c); mt = s.last_model
-        rf = s.check(nc); mf = s.last_model
-        if rt == 'unknown' or rf == 'unknown':
-            raise EndPath('undecided', 'solver returned unknown at a branch in %s' % (s.callstack[-1] if s.callstack else '?'))
-        if rt == 'sat' and rf == 'sat':
-            d = 1 - s.fork(2)        # child 1 takes the false side
-        elif rt == 'sat': d = 1
-        elif rf == 'sat': d = 0
-        else: raise EndPath('infeasible')
-        s.add_constraint(c if d else nc, mt if d else mf)
+        models = {}
+        def compute():
+            rt = s.check(c); models[1] = s.last_model
+            rf = s.check(nc); models[0] = s.last_model
+            if rt == 'unknown' or rf == 'unknown':
+                raise EndPath('undecided', 'solver returned unknown at a branch in %s' % (s.callstack[-1] if s.callstack else '?'))
+            alts = ([1] if rt == 'sat' else []) + ([0] if rf == 'sat' else [])
+            if not alts: raise EndPath('infeasible')
+            return alts
+        d = s.choice(compute)
+        s.add_constraint(c if d else nc, models.get(d))
         return d
 
     def enum_values(s, bv, bits, limit):
@@ -928,18 +961,19 @@ class Exec:
         if not vals: raise EndPath('infeasible')
         return vals
 
-    def fork_on_values(s, bv, bits, vals):
-        i = s.fork(len(vals)) if len(vals) > 1 else 0
-        v = vals[i]
-        s.add_constraint(bv == z3.BitVecVal(v, bits))
+    def choose_value(s, bv, bits, limit):
+        """continue with one feasible concrete value of bv (one path per value); None if there are more than `limit`"""
+        v = s.choice(lambda: s.enum_values(bv, bits, limit) or [None])
+        if v is not None:
+            s.add_constraint(bv == z3.BitVecVal(v, bits))
         return v
 
     def concretize(s, v, bits, limit=None, what='value'):
         if not is_sym(v): return v
         v = to_bv(v, bits)
-        vals = s.enum_values(v, bits, limit or s.opts.max_enum)
-        if vals is None: raise Unsupported('symbolic %s with too many feasible values' % what)
-        return s.fork_on_values(v, bits, vals)
+        r = s.choose_value(v, bits, limit or s.opts.max_enum)
+        if r is None: raise Unsupported('symbolic %s with too many feasible values' % what)
+        return r
 
     # ------------------------------------------------------------------ process forking
     def fork(s, n):
@@ -952,20 +986,14 @@ class Exec:
                 over = ctl.npaths.value > ctl.max_paths_total
             if over:
                 raise EndPath('path-budget', 'more than %d paths' % ctl.max_paths_total)
-            s.flush_record_partial()
-            got = ctl.sem.acquire(False)
             sys.stdout.flush(); sys.stderr.flush()
             pid = os.fork()
             if pid == 0:
                 s.children = []
-                s.has_token = got
                 s.path_id = s.path_id + '.%d' % i
                 s.reset_counters()
                 return i
-            if got:
-                s.children.append(pid)
-            else:
-                os.waitpid(pid, 0)
+            os.waitpid(pid, 0)       # depth-first: one live process per worker
         return 0
 
     def reset_counters(s):
@@ -984,6 +1012,10 @@ class Exec:
                'unknowns': s.unknowns, 'covers': s.covers, 'asserts': s.asserts, 'violations': s.violations,
                'obs': s.observations, 'fns': sorted(s.fnseen), 'wall_s': round(time.time() - getattr(s, 't_start', time.time()), 3),
                'nbranch': len(s.path)}
+        if os.environ.get('LLSE_RUSAGE'):
+            import resource
+            ru = resource.getrusage(resource.RUSAGE_SELF)
+            rec['minflt'] = ru.ru_minflt; rec['stime'] = ru.ru_stime; rec['utime'] = ru.ru_utime
         if s.stdout: rec['stdout'] = s.stdout.decode('utf-8', 'replace')[-2000:]
         line = (json.dumps(rec) + '\n').encode()
         os.write(ctl.out_fd, line)
@@ -996,7 +1028,6 @@ class Exec:
             for pid in s.children:
                 try: os.waitpid(pid, 0)
                 except ChildProcessError: pass
-            if s.has_token: s.ctl.sem.release()
             sys.stdout.flush(); sys.stderr.flush()
             os._exit(0)
 
@@ -1516,31 +1547,29 @@ class Exec:
         raise Unsupported('symbolic select of %r' % t)
 
     def switch_sym(s, x, bits, cases):
-        """fork over the feasible targets of a switch on a symbolic value; returns a representative value"""
-        alts = []   # (constraint, representative)
+        """one path per feasible target of a switch on a symbolic value; returns a representative value"""
         for cv in cases:
             c = x == z3.BitVecVal(cv, bits)
-            k = s.known.get(c.get_id())
-            if k: return cv
-        found = []
-        excl = []
-        dflt_ok = False
-        while True:
-            r = s.check(z3.And(*excl) if excl else None)
-            if r == 'unknown': raise EndPath('undecided', 'solver unknown in switch')
-            if r == 'unsat': break
-            v = s.last_model.eval(x, model_completion=True).as_long()
-            if v in cases:
-                found.append(v); excl.append(x != z3.BitVecVal(v, bits))
-            else:
-                dflt_ok = True
-                excl.append(z3.Or(*[x == z3.BitVecVal(cv, bits) for cv in cases]))
-        n = len(found) + (1 if dflt_ok else 0)
-        if n == 0: raise EndPath('infeasible')
-        i = s.fork(n) if n > 1 else 0
-        if i < len(found):
-            s.add_constraint(x == z3.BitVecVal(found[i], bits))
-            return found[i]
+            if s.known.get(c.get_id()): return cv
+        def compute():
+            found = []; excl = []; dflt_ok = False
+            while True:
+                r = s.check(z3.And(*excl) if excl else None)
+                if r == 'unknown': raise EndPath('undecided', 'solver unknown in switch')
+                if r == 'unsat': break
+                v = s.last_model.eval(x, model_completion=True).as_long()
+                if v in cases:
+                    found.append(v); excl.append(x != z3.BitVecVal(v, bits))
+                else:
+                    dflt_ok = True
+                    excl.append(z3.Or(*[x == z3.BitVecVal(cv, bits) for cv in cases]))
+            alts = found + ([-1] if dflt_ok else [])
+            if not alts: raise EndPath('infeasible')
+            return alts
+        v = s.choice(compute)
+        if v >= 0:
+            s.add_constraint(x == z3.BitVecVal(v, bits))
+            return v
         s.add_constraint(z3.And(*[x != z3.BitVecVal(cv, bits) for cv in cases]))
         return -1
 
@@ -1926,11 +1955,21 @@ def h_assume(s, a):
 def h_assert(s, a):
     c = a[0]; tag = _tag(s, a[1], a[2])
     st = s.asserts.setdefault(tag, [0, 0, 0])     # checked, violated, undecided
+    s.nhook += 1
+    hc = s.hookcache
+    if hc is not None and is_sym(c):
+        # replay mode: an assertion inside the replayed prefix was already decided when that prefix was first explored
+        key = (tuple(s.trail), s.nhook)
+        if key in hc:
+            if hc[key]:
+                cb = bool_of_i1(c); s.add_constraint(cb)
+            return None
     st[0] += 1
     if is_sym(c):
         cb = bool_of_i1(c)
         k = s.known.get(cb.get_id())
         if k is True: return None
+        if hc is not None: hc[(tuple(s.trail), s.nhook)] = False
         r = 'sat' if k is False else s.check(z3.Not(cb))
         if r == 'sat':
             if k is False: s.check()
@@ -1940,6 +1979,7 @@ def h_assert(s, a):
             r2 = s.check(cb)
             if r2 != 'sat': raise EndPath('assert-failed-always', tag)
             s.add_constraint(cb)
+            if hc is not None: hc[(tuple(s.trail), s.nhook)] = True
         elif r == 'unknown':
             st[2] += 1
         else:
@@ -1990,19 +2030,17 @@ def h_cfg(s, a):
 
 def h_checkpoint(s, a):
     ctl = s.ctl
-    if ctl is None or ctl.cases is None: return None
+    if ctl is None or ctl.cases is None or s.replay is not None: return None
     if getattr(s, 'checkpointed', False): return None
     s.checkpointed = True
     sys.stdout.flush(); sys.stderr.flush()
     setup = {'case': None, 'path': 'setup', 'status': 'setup', 'instr': s.ninstr, 'queries': s.queries, 'solver_s': s.solver_time,
              'fns': sorted(s.fnseen), 'wall_s': round(time.time() - s.t_start, 3), 'covers': [], 'asserts': {}, 'violations': [], 'obs': [], 'unknowns': 0, 'info': None, 'nbranch': 0}
     os.write(ctl.out_fd, (json.dumps(setup) + '\n').encode())
-    gc.collect(); gc.freeze()
     for case in ctl.cases:
-        ctl.sem.acquire()
         pid = os.fork()
         if pid == 0:
-            s.children = []; s.has_token = True
+            s.children = []
             s.case = case; s.path_id = '0'
             s.concrete = case.get('concrete')
             if s.concrete is not None:
@@ -2010,10 +2048,7 @@ def h_checkpoint(s, a):
             s.reset_counters()
             s.budget_abs = s.ninstr + s.opts.instr_budget
             return None
-        s.children.append(pid)
-    for pid in s.children:
-        try: os.waitpid(pid, 0)
-        except ChildProcessError: pass
+        os.waitpid(pid, 0)
     os._exit(0)
 
 HOOKS = {'@verif_f64': h_f64, '@verif_u64': h_u64, '@verif_assume': h_assume, '@verif_assert': h_assert, '@verif_cover': h_cover,
@@ -2024,54 +2059,113 @@ HOOKS = {'@verif_f64': h_f64, '@verif_u64': h_u64, '@verif_assume': h_assume, '@
 class Ctl:
     pass
 
-def explore(mod, entry, cases, opts=None, out_path=None, sample_dir=None, sample_every=0):
+def explore(module_path, entry, cases, opts=None, out_path=None, sample_dir=None, sample_every=0):
     """Run harness `entry` (which must call verif_checkpoint) on every case; returns the list of path records.
-    cases: [{'id': str, 'cfg': {int: str}, optional 'concrete': {'f0': bits, 'u1': int}}]"""
-    import multiprocessing, tempfile
+    cases: [{'id': str, 'cfg': {int: str}, optional 'concrete': {'f0': bits, 'u1': int}}]
+    The cases are dealt out to `opts.workers` independent worker processes (separately started interpreters, so
+    that their copy-on-write forks do not contend in the kernel); inside a worker the path tree of each case is
+    explored depth-first with one live process at a time."""
+    import subprocess, tempfile
     opts = opts or Opts()
-    if out_path is None:
-        fd, out_path = tempfile.mkstemp(prefix='llse_', suffix='.jsonl'); os.close(fd)
+    nw = max(1, min(opts.workers, len(cases)))
+    tmpd = tempfile.mkdtemp(prefix='llse_run_')
+    procs = []
+    for w in range(nw):
+        mine = cases[w::nw]
+        spec = {'module': module_path, 'entry': entry, 'cases': mine, 'opts': opts.__dict__, 'out': os.path.join(tmpd, 'out_%d.jsonl' % w),
+                'sample_dir': sample_dir, 'sample_every': sample_every}
+        sp = os.path.join(tmpd, 'spec_%d.json' % w)
+        json.dump(spec, open(sp, 'w'))
+        procs.append((subprocess.Popen([sys.executable, os.path.abspath(__file__), '--worker', sp], stdout=subprocess.DEVNULL, stderr=open(os.path.join(tmpd, 'err_%d.txt' % w), 'w')), spec, w))
+    recs = []
+    for p, spec, w in procs:
+        p.wait()
+        got = set()
+        try:
+            with open(spec['out']) as f:
+                for line in f:
+                    line = line.strip()
+                    if not line: continue
+                    try:
+                        r = json.loads(line); recs.append(r); got.add(r.get('case'))
+                    except Exception:
+                        recs.append({'status': 'engine-error', 'info': {'msg': 'corrupt record'}, 'case': None})
+        except OSError:
+            pass
+        if p.returncode != 0 or any(c['id'] not in got for c in spec['cases']):
+            err = open(os.path.join(tmpd, 'err_%d.txt' % w)).read()[-1500:]
+            recs.append({'status': 'engine-error', 'case': None, 'path': 'worker-%d' % w, 'info': {'msg': 'worker exited with %s; stderr: %s' % (p.returncode, err)},
+                         'instr': 0, 'queries': 0, 'solver_s': 0, 'covers': [], 'asserts': {}, 'violations': [], 'obs': [], 'fns': [], 'unknowns': 0, 'nbranch': 0})
+    import shutil
+    shutil.rmtree(tmpd, ignore_errors=True)
+    return recs
+
+def worker_main(spec_path):
+    import multiprocessing
+    spec = json.load(open(spec_path))
+    opts = Opts(**spec['opts'])
+    mod = load_module(spec['module'])
+    out_path = spec['out']
     open(out_path, 'w').close()
     ctl = Ctl()
-    ctl.sem = multiprocessing.Semaphore(opts.workers)
+    ctl.sem = None
     ctl.npaths = multiprocessing.Value('i', 0)
-    ctl.max_paths_total = opts.max_paths * max(1, len(cases))
-    ctl.cases = cases
-    ctl.sample_dir = sample_dir; ctl.sample_every = sample_every
-    sys.stdout.flush(); sys.stderr.flush()
-    gc.collect(); gc.freeze()
-    pid = os.fork()
-    if pid == 0:
-        gc.disable()
-        ctl.out_fd = os.open(out_path, os.O_WRONLY | os.O_APPEND)
-        ex = Exec(mod, opts); ex.ctl = ctl
-        ex.t_start = time.time(); ex.ninstr_base = 0
-        ex.budget_abs = 4_000_000_000
-        try:
-            try:
-                ex.call('@' + entry, [])
-                ex.finish('ok')
-            except EndPath as e:
-                ex.finish(e.status, e.info)
-            except Panic as e:
-                ex.finish('panic', {'msg': str(e), 'stack': [demangle(f) for f in ex.callstack[-12:]], 'inputs': ex.panic_inputs()})
-            except Unsupported as e:
-                ex.finish('unsupported', {'msg': str(e), 'stack': [demangle(f) for f in ex.callstack[-8:]]})
-            except SystemExit:
-                raise
-            except BaseException as e:
-                ex.finish('engine-error', {'msg': '%s: %s' % (type(e).__name__, e), 'tb': traceback.format_exc()[-3000:], 'stack': [demangle(f) for f in ex.callstack[-8:]]})
-        finally:
-            os._exit(0)
-    os.waitpid(pid, 0)
-    recs = []
-    with open(out_path) as f:
-        for line in f:
-            line = line.strip()
-            if line:
-                try: recs.append(json.loads(line))
-                except Exception: recs.append({'status': 'engine-error', 'info': {'msg': 'corrupt record'}, 'case': None})
-    return recs
+    ctl.max_paths_total = opts.max_paths * max(1, len(spec['cases']))
+    ctl.cases = spec['cases']
+    ctl.sample_dir = spec.get('sample_dir'); ctl.sample_every = spec.get('sample_every', 0)
+    ctl.out_fd = os.open(out_path, os.O_WRONLY | os.O_APPEND)
+    gc.collect(); gc.freeze(); gc.disable()
+    if opts.mode == 'replay':
+        run_replay(mod, opts, ctl, spec)
+        os._exit(0)
+    ex = Exec(mod, opts); ex.ctl = ctl
+    ex.t_start = time.time(); ex.ninstr_base = 0
+    ex.budget_abs = 4_000_000_000
+    try:
+        run_guarded(ex, spec['entry'], lambda st, info: ex.finish(st, info))
+    finally:
+        os._exit(0)
+
+def run_guarded(ex, entry, done):
+    try:
+        ex.call('@' + entry, [])
+        done('ok', None)
+    except EndPath as e:
+        done(e.status, e.info)
+    except Panic as e:
+        done('panic', {'msg': str(e), 'stack': [demangle(f) for f in ex.callstack[-12:]], 'inputs': ex.panic_inputs()})
+    except Unsupported as e:
+        done('unsupported', {'msg': str(e), 'stack': [demangle(f) for f in ex.callstack[-8:]]})
+    except SystemExit:
+        raise
+    except BaseException as e:
+        done('engine-error', {'msg': '%s: %s' % (type(e).__name__, e), 'tb': traceback.format_exc()[-3000:], 'stack': [demangle(f) for f in ex.callstack[-8:]]})
+
+def run_replay(mod, opts, ctl, spec):
+    """Replay mode: no process forking. Every path of a case is a fresh execution of the harness entry from a
+    copy of the initial machine state, guided through its recorded prefix of choices (no solver calls there)
+    and exploring first-feasible alternatives afterwards. Cheap when the harness prefix is short."""
+    base = Exec(mod, opts)
+    for case in spec['cases']:
+        pending = [[]]
+        npaths = 0
+        hookcache = {}
+        while pending:
+            dec = pending.pop()
+            npaths += 1
+            if npaths > opts.max_paths:
+                rec = {'case': case['id'], 'path': 'budget', 'status': 'path-budget', 'info': 'more than %d paths (%d pending)' % (opts.max_paths, len(pending) + 1),
+                       'instr': 0, 'queries': 0, 'solver_s': 0, 'unknowns': 0, 'covers': [], 'asserts': {}, 'violations': [], 'obs': [], 'fns': [], 'wall_s': 0, 'nbranch': 0}
+                os.write(ctl.out_fd, (json.dumps(rec) + '\n').encode())
+                break
+            ex = Exec(mod, opts, base=base); ex.ctl = ctl
+            ex.case = case; ex.replay = dec; ex.pending = pending; ex.hookcache = hookcache
+            ex.path_id = '.'.join(str(d) for d in dec) or '0'
+            conc = case.get('concrete')
+            if conc is not None: ex.concrete = {(k[0], int(k[1:])): v for k, v in conc.items()}
+            ex.t_start = time.time(); ex.ninstr_base = 0
+            ex.budget_abs = opts.instr_budget
+            run_guarded(ex, spec['entry'], lambda st, info: ex.record(st, info))
 
 def _panic_inputs(s):
     try:
@@ -2083,17 +2177,18 @@ def _panic_inputs(s):
 Exec.panic_inputs = _panic_inputs
 
 if __name__ == '__main__':
+    if len(sys.argv) >= 3 and sys.argv[1] == '--worker':
+        worker_main(sys.argv[2])
+        sys.exit(0)
     import argparse
     ap = argparse.ArgumentParser()
     ap.add_argument('module'); ap.add_argument('entry'); ap.add_argument('--cfg', action='append', default=[])
     ap.add_argument('--concrete', default=None)
     ar = ap.parse_args()
     t0 = time.time()
-    mod = load_module(ar.module)
-    print('loaded %d functions in %.1fs' % (len(mod.funcs), time.time() - t0))
     case = {'id': 'cli', 'cfg': {i: c for i, c in enumerate(ar.cfg)}}
     if ar.concrete: case['concrete'] = json.loads(ar.concrete)
-    recs = explore(mod, ar.entry, [case])
+    recs = explore(ar.module, ar.entry, [case])
     for r in recs:
         r2 = dict(r); r2.pop('fns', None)
         print(json.dumps(r2)[:1500])
